@@ -7,11 +7,12 @@ import pipe
 
 ID = "C03"
 MODULE = "C03"
-IMPORTS = "Bytes RustInt Range CacheControl Cache CacheProofs Fixture CacheX CacheXProofs CacheXWitness"
+IMPORTS = "Bytes RustInt Range CacheControl Cache CacheProofs Fixture CacheX CacheXProofs CacheXWitness CacheKey CacheKeyProofs"
 PROFILES = ("dev",)
 MAX_NOT_EXECUTED = 0
 _PINS = json.load(open(os.path.join(os.path.dirname(os.path.abspath(__file__)), "pins", "C03.json")))
-THEOREMS = [(n, _PINS[n]) for n in ("cache_transparent", "cache_hit_same_class", "cache_transparent_from_empty",
+THEOREMS = [(n, _PINS[n]) for n in ("cache_transparent", "cache_hit_same_class", "cache_transparent_from_empty", "key_injective",
+                                    "cache_transparent_uri", "cache_hit_same_uri", "query_start_needed",
                                     "override_poisons_refuted", "stream_vary_refuted", "qm_variant_refuted")]
 RULE = ("histories of requests/clears/waits against kvarn::handle_cache in process (harness/src/c04x.rs): (a) host with response cache vs. the Coq cache "
         "model Model/CacheX.v (component pipex.run; correspondence: status, vary / x-h / last-modified presence, decoded body, identity body, stream, "
@@ -142,7 +143,65 @@ def history(rng, n, timed=False, **kw):
     return ops
 
 
-def mk_cases(rng, hs, ops, default_ext, kind, xhs=(), vary=(), pair=True, run=True, **cfgkw):
+# URIs whose path + query concatenations (the `string` of comprash::PathQuery, which has no '?') coincide although path and query differ:
+# only the position of the boundary (`query_start`) keeps their keys apart.  Also: empty query / no query (one key, by PathQuery's design —
+# the echo handler prints them alike) and an encoded '?' in the path (a different path).
+SPLITS = [(b"/a?b", b"/ab"), (b"/x/y?z=1", b"/x/yz=1"), (b"/a?/b", b"/a/b"), (b"/a?bc", b"/ab?c"), (b"/?a", b"/a"), (b"/q?x=1", b"/qx=1"),
+          (b"/a?", b"/a"), (b"/a?b", b"/a%3Fb"), (b"/ab?", b"/a?b")]
+SPLIT_URIS = sorted({u for pr in SPLITS for u in pr} | {b"/a?b=", b"/", b"/x/y", b"/x/y?z=", b"/x/yz=1?", b"/a/b?"})
+SPLIT_PATHS = sorted({u.split(b"?")[0] for u in SPLIT_URIS})
+
+
+def split_handlers(rng, pref_of):
+    """one handler per path; QueryMatters handlers echo path?query (their contract), the others are static / echo the method class"""
+    hs = []
+    for i, p in enumerate(SPLIT_PATHS):
+        sp = pref_of(p)
+        hs.append(pipe.H(p, kind=1 if sp == 1 else rng.choice([0, 4]), body=b"e:" if sp == 1 else b"static:" + p + b":", spref=sp,
+                         headers=[(b"x-h", b"s%d" % i)], cpref=rng.choice([0, 3])))
+    return hs
+
+
+def split_directed(rng, tier):
+    """both orders of every ambiguous pair, against the assignments of {None, QueryMatters, Full} to the two handlers"""
+    cases = []
+    for u1, u2 in SPLITS:
+        p1, p2 = u1.split(b"?")[0], u2.split(b"?")[0]
+        combos = [(a, b) for a in (1, 2, 0) for b in (1, 2, 0)]
+        if tier == "quick":
+            combos = [(1, 1), rng.choice(combos[1:])]
+        for first, second in ((u1, u2), (u2, u1)):
+            for a, b in combos:
+                other = rng.choice([0, 1, 2])
+                hs = split_handlers(rng, lambda p: a if p == p1 else b if p == p2 else other)
+                ops = [pipe.req(first), pipe.req(second), pipe.req(first, method=rng.choice([b"GET", b"HEAD"])), pipe.req(second)]
+                cases += mk_cases(rng, hs, ops, False, "split", nocache_run=(tier != "quick"))
+    return cases
+
+
+def split_random(rng, n):
+    cases = []
+    for i in range(n):
+        qmp = rng.choice([0.4, 0.7, 1.0])
+        prefs = {p: (1 if rng.random() < qmp else rng.choice([0, 2])) for p in SPLIT_PATHS}
+        hs = split_handlers(rng, lambda p: prefs[p])
+        pr = rng.choice(SPLITS)
+        focus = list(pr) + [rng.choice(SPLIT_URIS)]
+        ops = []
+        for j in range(rng.randrange(3, 12)):
+            r = rng.random()
+            u = rng.choice(focus) if rng.random() < 0.75 else rng.choice(SPLIT_URIS)
+            if r < 0.08:
+                ops.append(pipe.clear_page(u))
+            elif r < 0.10:
+                ops.append(pipe.clear_all())
+            else:
+                ops.append(pipe.req(u, method=rng.choice([b"GET", b"GET", b"GET", b"GET", b"HEAD", b"POST"]), addr=rng.randrange(1, 4)))
+        cases += mk_cases(rng, hs, ops, rng.random() < 0.3, "split/random", pair=(i % 2 == 0), nocache_run=(i % 2 == 1))
+    return cases
+
+
+def mk_cases(rng, hs, ops, default_ext, kind, xhs=(), vary=(), pair=True, run=True, nocache_run=True, **cfgkw):
     out = []
     kw = dict(default_ext=default_ext, handlers=hs, report=[xb(r) for r in REPORT], disable_ims=False, **cfgkw)
     if xhs:
@@ -150,7 +209,7 @@ def mk_cases(rng, hs, ops, default_ext, kind, xhs=(), vary=(), pair=True, run=Tr
     if vary:
         kw["vary"] = list(vary)
     if run:
-        for cache in (True, False):
+        for cache in ((True, False) if nocache_run else (True,)):
             c = pipe.cfg(cache=cache, **kw)
             out.append(Case("pipex.run", pipe.scenario(c, ops), "pipex.run_nocache" if cache else None,
                             {"kind": kind + ("/cache" if cache else "/nocache")}))
@@ -198,6 +257,9 @@ def generate(rng, tier):
     Ra, Rb = [(b"x-v", b"a")], [(b"x-v", b"b")]
     cases += mk_cases(rng, [], [pipe.req(b"/v?x=1", headers=Ra), pipe.req(b"/v?x=1", headers=Rb), pipe.req(b"/v?x=2", headers=Rb), pipe.req(b"/v?x=2", headers=Ra),
                                 pipe.req(b"/v?x=1", headers=Rb)], False, "corpus/qm-variant", xhs=[xh], vary=[pipe.vary_rule(b"/v", [(b"x-v", 0, b"a")])])
+    # URIs whose PathQuery strings coincide but split differently (seeded/C03-3), both orders, handlers QueryMatters / Full / None
+    cases += split_directed(rng, tier)
+    cases += split_random(rng, 50 if tier == "quick" else 1500)
     nhist = 230 if tier == "quick" else 5000
     for i in range(nhist):
         prefs = [rng.choice([0, 1, 2]) for _ in range(3)]
